@@ -710,17 +710,19 @@ void gen_generic(int fi) {
     /* ---- part 2: the violation lattice: every combination of generic violations on a reduced size set */
     {
         int dnull_v[] = {0, 1};
-        struct { size_t dmax; int huge; } dmv[6]; int ndmv = 0;
+        struct { size_t dmax; int huge; } dmv[8]; int ndmv = 0;
         dmv[ndmv].dmax = 3 * f->w / f->dunit; dmv[ndmv++].huge = 0;   /* three elements */
         dmv[ndmv].dmax = 0; dmv[ndmv++].huge = 0;
         if (f->lim == LIM_STR || f->lim == LIM_WSTR) { dmv[ndmv].dmax = fn_limit(f); dmv[ndmv++].huge = 1; }
         dmv[ndmv].dmax = fn_limit(f) + 1; dmv[ndmv++].huge = 2;
         dmv[ndmv].dmax = (size_t)-1; dmv[ndmv++].huge = 3;
-        struct { size_t slen; int huge; } slv[5]; int nslv = 0;
+        if (f->dunit > 1) { dmv[ndmv].dmax = (size_t)-1 / f->dunit + 3; dmv[ndmv++].huge = 3; }     /* a count whose product with the element size wraps to a few bytes */
+        struct { size_t slen; int huge; } slv[6]; int nslv = 0;
         slv[nslv].slen = 2; slv[nslv++].huge = 0;
         if (has_l) { slv[nslv].slen = 0; slv[nslv++].huge = 0;
                      slv[nslv].slen = fn_slimit(f); slv[nslv++].huge = 1;
-                     slv[nslv].slen = fn_slimit(f) + 1; slv[nslv++].huge = 2; }
+                     slv[nslv].slen = fn_slimit(f) + 1; slv[nslv++].huge = 2;
+                     if (f->sunit > 1) { slv[nslv].slen = (size_t)-1 / f->sunit + 3; slv[nslv++].huge = 2; } }     /* product with the element size wraps to a few bytes */
         for (int place = 0; place < 2; place++)
         for (int idn = 0; idn < 2; idn++)
         for (int idm = 0; idm < ndmv; idm++)
@@ -735,7 +737,14 @@ void gen_generic(int fi) {
             memset(&c, 0, sizeof c);
             c.fn = fi; c.place = place; c.d_null = dnull_v[idn];
             c.dmax = dmv[idm].dmax; c.d_huge = dmv[idm].huge; c.d_bos = dbos == 3 ? 1 : dbos;
-            if (!c.d_null && c.dmax && !c.d_huge && dbos != 2 && !isn && !slv[isl].huge && !ion && !al) continue; /* part 1 */
+            if (!c.d_null && c.dmax && !c.d_huge && dbos != 2 && !isn && !slv[isl].huge && !ion && !al) {
+                if (has_k && !has_src && pk == 0) {      /* everything valid except the element count: the limit + 1, and values whose product with the element size wraps */
+                    const size_t kv[] = { fn_limit(f) + 1, (size_t)-1 / f->w + 1, (size_t)-1 / f->w + 4, (size_t)-1 / 2 + 1, (size_t)-1 };
+                    c.d_obj = dbos == 3 ? c.dmax + 3 * f->w / f->dunit + (f->w < f->dunit) : c.dmax; c.d_pk = 0; c.c = 'a';
+                    if ((c.d_obj * f->dunit) % f->w == 0) for (int q = 0; q < 5; q++) { c.k = (long)kv[q]; emit(&c); }
+                }
+                continue; /* the rest is part 1 */
+            }
             if (al && (idn || isn || dmv[idm].huge >= 2)) continue;                  /* aliasing needs two real pointers */
             if (al && !(f->flags & F_QRY) && (P == 3 || P == 4 || P == 6 || P == 8)) continue;   /* identical pointers of a dest-writing call are C07's */
             if (al && src_str && !pk) continue;                                      /* the aliased operand must be a string */
@@ -761,6 +770,7 @@ void gen_generic(int fi) {
             if (!src_str) { c.s_len = c.s_obj; c.s_term = 0; }
             if ((f->flags & F_SAMELEN) && c.d_huge < 2) { c.s_obj = c.d_obj > 0 ? c.d_obj : 1; c.s_len = c.s_obj; }
             c.o_null = ion; c.c = 'a'; c.k = 1; c.alias = al;
+
             if (al == 2) { if (c.d_obj * f->dunit / f->w < 3) continue; for (int q = 0; q < 2; q++) { c.slen = q + 1; c.s_huge = 0; emit(&c); if (!has_l) break; } }
             else if (al) { for (int q = 0; q < 4; q++) { static const size_t sq[4] = { 1, 2, 5, 4097 }; c.slen = sq[q]; c.s_huge = c.slen > fn_slimit(f) ? 2 : 0; emit(&c); if (!has_l) break; } }
             else emit(&c);
